@@ -19,6 +19,8 @@ def render(cmd):
     v = cmd["verb"]
     if "line" in cmd:
         return cmd["line"]
+    if v == "REUSER":
+        return "USER %s 0 * :%s" % (cmd["user"], cmd["real"]) if cmd["what"] == "user" else "PASS " + cmd["user"]
     if v == "CAP":
         return "CAP " + cmd["sub"] + (" :" + " ".join(cmd["caps"]) if cmd.get("caps") else "")
     if v == "JOIN":
